@@ -91,7 +91,7 @@ def liquidationFee (W U factor recvFactor size pmin : Nat) : Option LiqFees :=
 
 /-- `PositionFees` aggregation (`crates/model/src/params/fee.rs`): order fees (already split), borrowing and
 liquidation fees (total + receiver part). -/
-structure PosFees where
+structure FeeAgg where
   orderPool : Nat
   orderRecv : Nat
   borrow : Nat
@@ -103,7 +103,7 @@ structure PosFees where
 def poolPart (total recv : Nat) : Option Nat := checkedSub total recv
 
 /-- `PositionFees::for_pool` -/
-def PosFees.forPool (W : Nat) (f : PosFees) : Option Nat :=
+def FeeAgg.forPool (W : Nat) (f : FeeAgg) : Option Nat :=
   match poolPart f.borrow f.borrowRecv with
   | none => none
   | some b =>
@@ -118,13 +118,13 @@ def PosFees.forPool (W : Nat) (f : PosFees) : Option Nat :=
         | some lp => checkedAdd W t lp
 
 /-- `PositionFees::for_receiver` -/
-def PosFees.forReceiver (W : Nat) (f : PosFees) : Option Nat :=
+def FeeAgg.forReceiver (W : Nat) (f : FeeAgg) : Option Nat :=
   match checkedAdd W f.orderRecv f.borrowRecv with
   | none => none
   | some t => match f.liq with | none => some t | some (_, lr) => checkedAdd W t lr
 
 /-- `PositionFees::total_cost_excluding_funding` -/
-def PosFees.totalCost (W : Nat) (f : PosFees) : Option Nat :=
+def FeeAgg.totalCost (W : Nat) (f : FeeAgg) : Option Nat :=
   match checkedAdd W f.orderPool f.orderRecv with
   | none => none
   | some a =>
